@@ -219,8 +219,14 @@ def replay_gen(payload):
                     else:
                         m.add_node(vn[o["v"]], latent=o["flag"])
                 elif op == "add_edge":
-                    if rng.random() < 0.3:
+                    # the spellings of "add this edge": they all go through the same precondition (no self loop, no cycle)
+                    how = rng.random()
+                    if how < 0.2:
                         m.add_edges_from([(vn[o["u"]], vn[o["v"]])])
+                    elif how < 0.4:
+                        m.add_edges_from([(vn[o["u"]], vn[o["v"]])], weights=[rng.choice([0.5, 2])])
+                    elif how < 0.55:
+                        m.add_edge(vn[o["u"]], vn[o["v"]], weight=rng.choice([0.5, 2]))
                     else:
                         m.add_edge(vn[o["u"]], vn[o["v"]])
                 elif op == "remove_node":
